@@ -357,4 +357,245 @@ theorem moveTo_unwind (f : Nat) (c : Chain) (fl : Nat) (pre post : List PE) (dst
   rw [moveTo_eq f c dst d lb cur lb2 anc hd hlb h1 h2 h3, hu]
   rfl
 
+-- ------------------------------------------------------------------------------------------ deliveries on the tip
+
+
+theorem getNode_append_left {c : Chain} {x : Nat} {n : Node} (extra : List Node) (h : getNode c x = some n) :
+    getNode { c with nodes := c.nodes ++ extra } x = some n := by
+  unfold getNode at *
+  simp only [List.find?_append, h, Option.some_or]
+
+theorem getNode_append_new {c : Chain} {n : Node} (h : getNode c n.id = none) :
+    getNode { c with nodes := c.nodes ++ [n] } n.id = some n := by
+  unfold getNode at *
+  simp only [List.find?_append, h, Option.none_or, List.find?_cons, beq_self_eq_true]
+
+theorem find_filter_ne (l : List Node) (x y : Nat) (hxy : x ≠ y) :
+    (l.filter (fun m => m.id != y)).find? (fun m => m.id == x) = l.find? (fun m => m.id == x) := by
+  induction l with
+  | nil => rfl
+  | cons m ms ih =>
+    by_cases hy : m.id = y
+    · have h1 : (m.id != y) = false := by simp [hy]
+      have h2 : (m.id == x) = false := by simpa [hy] using fun e : y = x => hxy e.symm
+      simp only [List.filter, h1, List.find?_cons, h2, ih]
+    · have h1 : (m.id != y) = true := by simpa using hy
+      simp only [List.filter, h1, List.find?_cons, ih]
+
+theorem getNode_filter_ne {c : Chain} {x y : Nat} {n : Node} (hxy : x ≠ y) (h : getNode c x = some n) :
+    getNode { c with nodes := c.nodes.filter (fun m => m.id != y) } x = some n := by
+  unfold getNode at *
+  simp only
+  rw [find_filter_ne _ _ _ hxy]; exact h
+
+
+/-- node `x` survives from `c` to `c'` with the same parent and height -/
+def NP (c c' : Chain) (x : Nat) : Prop :=
+  ∀ n, getNode c x = some n → ∃ n', getNode c' x = some n' ∧ n'.parent = n.parent ∧ n'.height = n.height
+
+theorem NP.trans {a b c : Chain} {x : Nat} (h1 : NP a b x) (h2 : NP b c x) : NP a c x := by
+  intro n hn
+  obtain ⟨n1, g1, p1, q1⟩ := h1 n hn
+  obtain ⟨n2, g2, p2, q2⟩ := h2 n1 g1
+  exact ⟨n2, g2, p2.trans p1, q2.trans q1⟩
+
+theorem find_map_node_h (l : List Node) (id x : Nat) (f : Node → Node) (n : Node)
+    (hf : ∀ m, (f m).id = m.id ∧ (f m).parent = m.parent ∧ (f m).height = m.height)
+    (h : l.find? (fun m => m.id == x) = some n) :
+    ∃ n', (l.map fun m => if m.id == id then f m else m).find? (fun m => m.id == x) = some n' ∧
+      n'.parent = n.parent ∧ n'.height = n.height := by
+  induction l with
+  | nil => simp at h
+  | cons m ms ih =>
+    have hg : ∀ m : Node, (if m.id == id then f m else m).id = m.id ∧ (if m.id == id then f m else m).parent = m.parent
+        ∧ (if m.id == id then f m else m).height = m.height := by
+      intro m; by_cases hid : (m.id == id) = true
+      · simp only [hid, if_true]; exact hf m
+      · simp only [hid]; exact ⟨rfl, rfl, rfl⟩
+    simp only [List.map_cons, List.find?_cons] at h ⊢
+    by_cases hm : (m.id == x) = true
+    · simp only [hm] at h
+      cases h
+      simp only [(hg n).1, hm]
+      exact ⟨_, rfl, (hg n).2.1, (hg n).2.2⟩
+    · have h1 : (m.id == x) = false := by simpa using hm
+      simp only [h1] at h
+      simp only [(hg m).1, h1]
+      exact ih h
+
+theorem NP_modNode (c : Chain) (id x : Nat) (f : Node → Node)
+    (hf : ∀ m, (f m).id = m.id ∧ (f m).parent = m.parent ∧ (f m).height = m.height) : NP c (modNode c id f) x :=
+  fun n hn => find_map_node_h c.nodes id x f n hf hn
+
+theorem NP_append (c : Chain) (extra : List Node) (x : Nat) : NP c { c with nodes := c.nodes ++ extra } x :=
+  fun n hn => ⟨n, getNode_append_left extra hn, rfl, rfl⟩
+
+theorem NP_filter (c : Chain) (x y : Nat) (hxy : x ≠ y) :
+    NP c { c with nodes := c.nodes.filter (fun m => m.id != y) } x :=
+  fun n hn => ⟨n, getNode_filter_ne hxy hn, rfl, rfl⟩
+
+theorem Linked_ids {c : Chain} {p : List PE} (h : Linked c p) : ∀ e ∈ p, ∃ n, getNode c e.id = some n := by
+  induction p with
+  | nil => intro e he; cases he
+  | cons a rest ih =>
+    intro e he
+    rcases List.mem_cons.mp he with rfl | h2
+    · obtain ⟨⟨n, hn, _⟩, _⟩ := h; exact ⟨n, hn⟩
+    · exact ih h.2.2 e h2
+
+/-- the invariant is insensitive to changes of the tree that keep every node of the path (parent) and of the store
+    that keep every block of the path -/
+theorem PathOK_mono {c c' : Chain} {fl : Nat} {path : List PE} (h : PathOK c fl path)
+    (hroot : c'.root = c.root) (htip : c'.tip = c.tip) (hutxo : c'.utxo = c.utxo) (hfiles : c'.undoFiles = c.undoFiles)
+    (hlast : c'.lastHeight = c.lastHeight)
+    (hnodes : ∀ e ∈ path, NP c c' e.id)
+    (hstore : ∀ e ∈ path, ∀ b0, alookup e.id c.store = some b0 → ∃ b1, alookup e.id c'.store = some b1 ∧ b1.txs = b0.txs) :
+    PathOK c' fl path := by
+  refine ⟨?_, ?_, ?_, ?_, UndoOK_congr hfiles fl path h.undo, h.fresh⟩
+  · rw [htip, h.tip, headId_congr hroot]
+  · rw [hlast, h.lastH]
+  · refine Linked_mono hroot path ?_ hstore h.linked
+    intro e he n hn
+    obtain ⟨n', g, p, _⟩ := hnodes e he n hn
+    exact ⟨n', g, p⟩
+  · rw [hutxo]; exact h.utxo
+
+
+/-- `PathOK` plus: the tip node exists and its height is the length of the active branch -/
+def PathOKH (c : Chain) (fl : Nat) (path : List PE) : Prop :=
+  PathOK c fl path ∧ ∃ t, getNode c c.tip = some t ∧ t.height = path.length
+
+/-- the chain after AcceptHeader for a block on the tip node `t` -/
+def accepted (c : Chain) (b : Block) (t : Node) : Chain :=
+  { modNode c t.id (fun q => { q with childs := q.childs ++ [b.id] }) with
+    nodes := (modNode c t.id (fun q => { q with childs := q.childs ++ [b.id] })).nodes ++
+      [{ id := b.id, parent := t.id, height := t.height + 1, bits := b.bits, childs := [], txCount := 0 }] }
+
+theorem NP_accepted (c : Chain) (b : Block) (t : Node) (x : Nat) : NP c (accepted c b t) x :=
+  (NP_modNode c t.id x (fun q => { q with childs := q.childs ++ [b.id] }) (fun _ => ⟨rfl, rfl, rfl⟩)).trans
+    (NP_append (modNode c t.id (fun q => { q with childs := q.childs ++ [b.id] })) _ x)
+
+theorem deliver_on_tip_eq (c : Chain) (b : Block) (t : Node) (hb : getNode c b.id = none)
+    (ht : getNode c c.tip = some t) (hpar : b.parent = c.tip) :
+    deliver c b = commitBlock (accepted c b t) b (t.height + 1) := by
+  unfold deliver accepted
+  simp only [hb, Option.isSome_none, Bool.false_eq_true, if_false, hpar, ht, bne_self_eq_false, Bool.false_and]
+
+
+theorem getNode_accepted_new (c : Chain) (b : Block) (t : Node) (hb : getNode c b.id = none) :
+    getNode (accepted c b t) b.id =
+      some { id := b.id, parent := t.id, height := t.height + 1, bits := b.bits, childs := [], txCount := 0 } := by
+  have h0 : getNode (modNode c t.id (fun q => { q with childs := q.childs ++ [b.id] })) b.id = none := by
+    unfold getNode modNode at *
+    simp only
+    rw [List.find?_eq_none] at hb ⊢
+    intro m hm
+    simp only [List.mem_map] at hm
+    obtain ⟨a, ha, rfl⟩ := hm
+    have := hb a ha
+    by_cases hid : (a.id == t.id) = true
+    · simp only [hid, if_true]; exact this
+    · simp only [hid]; exact this
+  exact getNode_append_new (n := { id := b.id, parent := t.id, height := t.height + 1, bits := b.bits, childs := [], txCount := 0 }) h0
+
+theorem PathOK_accepted {c : Chain} {fl : Nat} {path : List PE} (h : PathOK c fl path) (b : Block) (t : Node) :
+    PathOK (accepted c b t) fl path :=
+  PathOK_mono h rfl rfl rfl rfl rfl (fun e _ => NP_accepted c b t e.id) (fun _ _ b0 hb0 => ⟨b0, hb0, rfl⟩)
+
+/-- what `commitBlock` leaves when `commitTxs` rejects a block on the tip -/
+def rejectedChain (a : Chain) (b : Block) : Chain :=
+  { a with
+    nodes := List.filter (fun n => n.id != b.id)
+          (List.map (fun n => if (n.id == b.parent) = true then
+                { n with childs := List.filter (fun x => x != b.id) n.childs } else n)
+            (List.map (fun n => if (n.id == b.id) = true then { n with txCount := b.txs.length } else n) a.nodes)),
+    tip := b.parent }
+
+/-- **A delivery on the tip keeps the invariant** — whether the block is accepted (branch extended, map = replay of the
+    longer branch) or rejected by `commitTxs` (block dropped from the tree, nothing else changes) or is a duplicate. -/
+theorem deliver_on_tip (c : Chain) (fl : Nat) (path : List PE) (h : PathOKH c fl path) (b : Block)
+    (hpar : b.parent = c.tip) (hfresh : ∀ t ∈ b.txs.map (·.txid), c.utxo.get t = none) :
+    ∃ fl' path', PathOKH (deliver c b).1 fl' path' := by
+  obtain ⟨hp, t, ht, hth⟩ := h
+  cases hb : getNode c b.id with
+  | some n0 =>
+    have : deliver c b = (c, Outcome.dup) := by unfold deliver; simp [hb]
+    rw [this]; exact ⟨fl, path, hp, t, ht, hth⟩
+  | none =>
+    rw [deliver_on_tip_eq c b t hb ht hpar, hth]
+    have hpa := PathOK_accepted hp b t
+    have htid : t.id = c.tip := getNode_id ht
+    have hnewnode := getNode_accepted_new c b t hb
+    have hnew : ∀ e ∈ path, e.id ≠ b.id := by
+      intro e he heq
+      obtain ⟨n, hn⟩ := Linked_ids hp.linked e he
+      rw [heq, hb] at hn; cases hn
+    cases hct : commitTxs c.utxo (path.length + 1) (reward (path.length + 1)) false b.txs with
+    | ok ch =>
+      have hok : commitTxs (accepted c b t).utxo (path.length + 1) (reward (path.length + 1)) false b.txs = .ok ch := hct
+      have htip2 : (accepted c b t).tip = b.parent := hpar.symm
+      refine ⟨_, _, commitBlock_path (accepted c b t) fl path hpa b ch htip2
+        ⟨_, hnewnode, by simp only [htid, hpar]⟩ hnew hok hfresh, ?_⟩
+      rw [commitBlock_ok_eq _ b _ ch htip2 hok]
+      obtain ⟨n', g, _, hh⟩ := NP_modNode (accepted c b t) b.id b.id (fun n => { n with txCount := b.txs.length })
+        (fun _ => ⟨rfl, rfl, rfl⟩) _ hnewnode
+      refine ⟨n', ?_, by rw [hh, hth]; rfl⟩
+      have hf := cbt_fields (preCommit (accepted c b t) b) (path.length + 1) true (b.txs.map (·.txid)) ch
+      unfold getNode at g ⊢
+      simp only [hf.2.2.2]
+      exact g
+    | error e =>
+      have herr : commitTxs (accepted c b t).utxo (path.length + 1) (reward (path.length + 1)) false b.txs = .error e := hct
+      have htip2 : (accepted c b t).tip = b.parent := hpar.symm
+      refine ⟨fl, path, ?_⟩
+      unfold commitBlock
+      simp only [modNode, htip2, beq_self_eq_true, if_true, herr]
+      show PathOKH (rejectedChain (accepted c b t) b) fl path
+      have hNP : ∀ x, x ≠ b.id → ∀ R : Chain, R.nodes = List.filter (fun n => n.id != b.id)
+          (List.map (fun n => if (n.id == b.parent) = true then
+                { n with childs := List.filter (fun x => x != b.id) n.childs } else n)
+            (List.map (fun n => if (n.id == b.id) = true then { n with txCount := b.txs.length } else n)
+              (accepted c b t).nodes)) → NP c R x := by
+        intro x hx R hR
+        have h1 := NP_accepted c b t x
+        have h2 := NP_modNode (accepted c b t) b.id x (fun n => { n with txCount := b.txs.length }) (fun _ => ⟨rfl, rfl, rfl⟩)
+        have h3 := NP_modNode (modNode (accepted c b t) b.id (fun n => { n with txCount := b.txs.length })) b.parent x
+          (fun n => { n with childs := List.filter (fun x => x != b.id) n.childs }) (fun _ => ⟨rfl, rfl, rfl⟩)
+        have h4 := NP_filter (modNode (modNode (accepted c b t) b.id (fun n => { n with txCount := b.txs.length })) b.parent
+          (fun n => { n with childs := List.filter (fun x => x != b.id) n.childs })) x b.id hx
+        have h5 := ((h1.trans h2).trans h3).trans h4
+        intro n hn
+        obtain ⟨n', g, q⟩ := h5 n hn
+        refine ⟨n', ?_, q⟩
+        unfold getNode at g ⊢
+        rw [hR]; exact g
+      have htipne : c.tip ≠ b.id := by
+        intro e; rw [e, hb] at ht; cases ht
+      refine ⟨PathOK_mono hp rfl hpar rfl rfl rfl
+        (fun e he => hNP e.id (hnew e he) (rejectedChain (accepted c b t) b) rfl)
+        (fun _ _ b0 hb0 => ⟨b0, hb0, rfl⟩), ?_⟩
+      obtain ⟨n', g, _, hh⟩ := hNP c.tip htipne (rejectedChain (accepted c b t) b) rfl t ht
+      refine ⟨n', ?_, hh.trans hth⟩
+      show getNode (rejectedChain (accepted c b t) b) b.parent = some n'
+      rw [hpar]; exact g
+
+
+/-- every block of the list is delivered on the then-current tip and re-uses no txid still in the map (BIP30) -/
+def OnTip (c : Chain) : List Block → Prop
+  | [] => True
+  | b :: bs => b.parent = c.tip ∧ (∀ t ∈ b.txs.map (·.txid), c.utxo.get t = none) ∧ OnTip (deliver c b).1 bs
+
+theorem deliver_all_on_tip (bs : List Block) : ∀ (c : Chain) (fl : Nat) (path : List PE), PathOKH c fl path →
+    OnTip c bs → ∃ fl' path', PathOKH (bs.foldl (fun c b => (deliver c b).1) c) fl' path' := by
+  induction bs with
+  | nil => intro c fl path h _; exact ⟨fl, path, h⟩
+  | cons b bs ih =>
+    intro c fl path h hon
+    obtain ⟨fl1, p1, h1⟩ := deliver_on_tip c fl path h b hon.1 hon.2.1
+    exact ih _ fl1 p1 h1 hon.2.2
+
+theorem init_pathH (r bits : Nat) : PathOKH (ChainTree.init r bits) 0 [] :=
+  ⟨init_path r bits, { id := r, parent := r, height := 0, bits := bits, childs := [], txCount := 0 },
+   by simp [getNode, ChainTree.init], rfl⟩
+
 end GocoinV.ChainTree
